@@ -2128,6 +2128,9 @@ class Interp:
             for name_, v_ in zip(contract.param_order, args):
                 locals_[name_] = v_
         cf = Frame(func, dict(locals_), self.reg.spec_module_for(contract), func.cls)
+        # ghost variables of the callee are existentially quantified at a call site: fresh unknown integers
+        for g_ in getattr(contract, 'ghost_init', {}) or {}:
+            cf.locals.setdefault(g_, VInt(self.path.fresh_int('ghost.' + g_)))
         cf.spec = True
         cf.target_module = func.module
         cf.self_cls = self_cls
